@@ -203,6 +203,12 @@ pub fn gen_c14(em: &mut Emitter, rng: &mut Rng) {
                                 em.violation("multi-batch-update-mismatch", format!("multi_batch_update over batches {}..={} differs from the recomputed witness", i, j), replay_base.clone());
                             }
                         }
+                        None if y.0 + alpha == Scalar::ONE => {
+                            // y + α = 1: removing y multiplies the accumulator by 1 — "deleted" and "member" coincide
+                            // (outside the generic-position hypothesis of the theorems; probability 1/r for a random key)
+                            c_step_known = None;
+                            em.count("degenerate:y+alpha=1");
+                        }
                         None => {
                             c_step_known = None;
                             if w_step.verify(y, pk, b.acc_new) {
@@ -229,6 +235,8 @@ pub fn gen_c14(em: &mut Emitter, rng: &mut Rng) {
                         let sig = if b.adds.len() + b.dels.len() > 1 { "single-step-multi-element" } else { "single-step-update-mismatch" };
                         em.violation(sig, format!("MembershipWitness::update with {} additions and {} deletions in one call differs from the recomputed witness", b.adds.len(), b.dels.len()), replay_base.clone());
                     }
+                } else if y.0 + alpha == Scalar::ONE {
+                    em.count("degenerate:y+alpha=1");
                 } else if w_single.verify(y, pk, b.acc_new) {
                     em.violation("deleted-element-single-update-verifies", "update gave a verifying witness for a deleted element", replay_base.clone());
                 }
